@@ -90,6 +90,7 @@ def main():
             if os.path.exists(mp):
                 old = json.load(open(mp))
             # the property the change was written against stays on record; 'checked_with' is the check that was run
+            meta['tier'] = tier
             meta['checked_with'] = prop
             meta['property'] = old.get('property') or prop
             readme = open(os.path.join(dst, 'README.md')).read() if os.path.exists(os.path.join(dst, 'README.md')) else ''
